@@ -536,6 +536,38 @@ pub fn generate(seed: u64, tier: &str, property: &str) -> RegScenario {
                     // load one file explicitly under its registry name (becomes manual)
                     h.push(Op::AddFile { path: path.clone(), name: Some(name.clone()), faults: vec![] }, None, h.has_dependents(i));
                 }
+                7 if rng.chance(1, 2) => {
+                    // a batch of 2-4 files in which one, at a random position, is unusable
+                    // (broken content, not UTF-8, missing, a directory): everything inserted
+                    // before it in the same call must be taken out again
+                    let mut picks: Vec<usize> = files.clone();
+                    rng.shuffle(&mut picks);
+                    picks.truncate(rng.range(2, 4).min(picks.len()));
+                    let bad = rng.below(picks.len());
+                    let mut its: Vec<(String, Option<String>)> = Vec::new();
+                    for (k, fi) in picks.iter().enumerate() {
+                        let nm = h.name(*fi);
+                        if k == bad {
+                            let bp = format!("tpl/zz_bad{}", rng.below(3));
+                            match rng.below(4) {
+                                0 => {
+                                    let (bytes, _) = corrupt(h.current[*fi].as_bytes(), &rng);
+                                    h.push(Op::DiskWrite { path: bp.clone(), hex: hex(&bytes) }, Some("storage-fault"), false);
+                                }
+                                1 => h.push(Op::DiskWrite { path: bp.clone(), hex: hex(&[0xff, 0xfe, 0x41]) }, Some("non_utf8"), false),
+                                2 => h.push(Op::DiskMkdir { path: bp.clone() }, Some("dir_in_place_of_file"), false),
+                                _ => h.push(Op::DiskDelete { path: bp.clone() }, Some("missing-file"), false),
+                            }
+                            its.push((bp, Some(nm)));
+                        } else {
+                            its.push((format!("tpl/{}", nm), Some(nm)));
+                        }
+                    }
+                    h.push(Op::AddFiles { items: its, faults: vec![] }, Some("bad-file-in-batch"), false);
+                    for k in 0..3 {
+                        h.push(Op::DiskDelete { path: format!("tpl/zz_bad{}", k) }, None, false);
+                    }
+                }
                 7 => {
                     // a batch of files, one of them possibly vanishing before it is opened
                     let j = rng.pick(&files);
